@@ -64,7 +64,10 @@ def gen_case(rng, tier):
     return_stored = rng.random() < 0.35
     load_stored = rng.choice([None, True, False]) if return_stored else None
     sched = rng.choice(["sync", "threads", "threads"])
-    return {"pairs": pairs, "lock": lock, "compute": compute, "return_stored": return_stored, "load_stored": load_stored, "scheduler": sched, "region_as_list": rng.random() < 0.5}
+    if npairs > 1 and rng.random() < 0.4:
+        # the same source stored into several targets of one shape (real ndarrays: equal content before the store)
+        pairs = [dict(pairs[0]) for _ in range(npairs)]
+    return {"nd_targets": rng.random() < 0.3, "pairs": pairs, "lock": lock, "compute": compute, "return_stored": return_stored, "load_stored": load_stored, "scheduler": sched, "region_as_list": rng.random() < 0.5}
 
 
 def build_pair(p):
@@ -117,7 +120,7 @@ def judge(case, ctx):
                     if nd == 0:
                         ctx.count("zero_d_sources_with_region")
                 tshape, region = tuple(tshape), tuple(region)
-            t = rec.RecTarget(tshape, "f8", lock=lockobj)
+            t = (rec.RecNdTarget if case.get("nd_targets") else rec.RecTarget)(tshape, "f8", lock=lockobj)
             sources.append(x)
             expected.append(e)
             targets.append(t)
@@ -246,6 +249,22 @@ def npy_roundtrip(rng, ctx):
         why = same(a, got)
         if why:
             return [("npy_roundtrip", f"to_npy_stack/from_npy_stack over axis {axis} of shape {shape}: {why}", "npy_roundtrip")]
+        if rng.random() < 0.5:
+            # the stack is rewritten in place (other data, other chunks) while the first array is still alive
+            for f in os.listdir(d):
+                os.remove(os.path.join(d, f))
+            a2 = a * 2 + 1
+            x2 = da.from_array(a2, chunks=rand_chunks(rng, shape))
+            da.to_npy_stack(d, x2, axis=axis)
+            y2 = da.from_npy_stack(d)
+            ctx.count("npy_stacks_rewritten_in_place")
+            try:
+                got2 = y2.compute()
+            except Exception as ex:
+                return [("npy_rewritten_stack", f"from_npy_stack of a directory rewritten in place raised {type(ex).__name__}: {ex}", "npy_rewritten_stack:raise")]
+            why = same(a2, got2)
+            if why or tuple(y2.chunks[axis]) != tuple(x2.chunks[axis]):
+                return [("npy_rewritten_stack", f"from_npy_stack of a directory rewritten in place: chunks {y2.chunks} (written {x2.chunks}); {why}", "npy_rewritten_stack")]
     except Exception as ex:
         ctx.tab("npy_raised", f"{type(ex).__name__}:{exc_site(ex)}")
     finally:
